@@ -524,7 +524,7 @@ def h_iter(ctx, cfg):
                 return Constant(c)
             return {"N": NoArg(), "n": Name("x"), "i": Constant(1)}[k]
         blocks = tuple(tuple(Instruction("OP", arg(k), line_number=1) for k in b) for b in kinds)
-        extra = tuple((Constant(nested.append(c) or c, 9) if k == "C" else Name("y", 3)) for k in addl for c in [leaf() if k == "C" else None])
+        extra = tuple((Constant(nested.append(c) or c, 9) if k == "C" else Name("y", 3)) for k in addl for c in [(leaf() if depth <= 1 else mk(("C", "N"), ("C",), depth - 1)[0]) if k == "C" else None])
         counter[0] += 1
         return CodeData(blocks=blocks, filename="f", first_line_number=counter[0], name="node%d" % counter[0], stacksize=1, _additional_args=extra), nested
 
